@@ -394,7 +394,8 @@ func (w FederatingWrappedCallbacks) follow(c context.Context, a vocab.ActivitySt
 		for iter := op.Begin(); iter != op.End(); iter = iter.Next() {
 			id, err := ToId(iter)
 			if err != nil {
-				return err
+				// Names nobody (no id): not this actor.
+				continue
 			}
 			if id.String() == actorIRI.String() {
 				isMe = true
@@ -793,7 +794,8 @@ func (w FederatingWrappedCallbacks) like(c context.Context, a vocab.ActivityStre
 	loopFn := func(iter vocab.ActivityStreamsObjectPropertyIterator) error {
 		objId, err := ToId(iter)
 		if err != nil {
-			return err
+			// Names no id: not an object this server owns.
+			return nil
 		}
 		if err := w.db.Lock(c, objId); err != nil {
 			return err
@@ -874,7 +876,8 @@ func (w FederatingWrappedCallbacks) announce(c context.Context, a vocab.Activity
 	loopFn := func(iter vocab.ActivityStreamsObjectPropertyIterator) error {
 		objId, err := ToId(iter)
 		if err != nil {
-			return err
+			// Names no id: not an object this server owns.
+			return nil
 		}
 		if err := w.db.Lock(c, objId); err != nil {
 			return err
